@@ -209,7 +209,7 @@ def main(argv):
                 return 1
             return 0
 
-        nsess = 60 if tier == "quick" else 1500
+        nsess = 150 if tier == "quick" else 1500
         sessions = [gen_session(seed, i, tier) for i in range(nsess)]
         # regression corpus
         import glob
